@@ -13,7 +13,7 @@ SPEC = {
     "claim": {
         "category": "exploration",
         "technique": "generated concurrent programs (rapidcheck byte-decoded thread program sets) executed under ThreadSanitizer, plus a differential oracle: every thread's result digest must equal the digest of the same program run alone",
-        "text": "Each case builds a pool of immutable strings and buffers of every size class and starts 2..8 threads behind a barrier; each thread runs 4 rounds of a generated list of 5..60 operations drawn from 48 operation shapes covering const members on the shared objects, conversions, codecs, every formatting sink (incl. floating-point renderings of 64+ characters) and mutation of thread-local strings, buffers and string_streams. Any ThreadSanitizer report, or a thread obtaining results different from a solo run of the same program, is a violation. The threads run BEFORE the solo runs that give the expected digests, and the shared pool is built without calling any codec or validator, so whatever the library builds on first use is first touched concurrently (unsynchronised lazy initialisation is reported by ThreadSanitizer in every process). Five rounds per case: three plain, one in which the odd threads run every operation with its k-th allocation failing (k = 1..6; operator new / new[] calls of the harness object are redirected at link time), one plain again; results of the faulted round are not compared.",
+        "text": "Each case builds a pool of immutable strings and buffers of every size class and starts 2..8 threads behind a barrier; each thread runs 4 rounds of a generated list of 5..60 operations drawn from 48 operation shapes covering const members on the shared objects, conversions, codecs, every formatting sink (incl. floating-point renderings of 64+ characters) and mutation of thread-local strings, buffers and string_streams. Any ThreadSanitizer report, or a thread obtaining results different from a solo run of the same program, is a violation. The threads run BEFORE the solo runs that give the expected digests, and the shared pool is built without calling any codec or validator, so whatever the library builds on first use is first touched concurrently (unsynchronised lazy initialisation is reported by ThreadSanitizer in every process). Five rounds per case: three plain, one in which the odd threads run every operation with its k-th allocation failing (k = 1..6; operator new / new[] calls of the harness object are redirected at link time), one plain again; results of the faulted round are not compared. An enumerated cold-start storm complements the generated programs: 1600 fresh processes (fork; the parent never calls the library), 8 threads, one same-program case each, every operation kind taking its turn as the first operation; per-thread digests must equal the solo digest (first-use state that is built in steps with atomics only is invisible to the race detector).",
         "level_note": "Observed schedules plus TSan's happens-before closure; interleavings are not enumerated and races inside uninstrumented libc are visible only through interceptors or wrong results. A saved case is replayed 12 times (each replay repeats the case 4 times in one process) and counts when its failure shows again at least once: thread-program failures depend on the schedule.",
     },
 }
